@@ -19,7 +19,7 @@ RULE = (
     "with the segment whose cumulative-length interval contains t. Non-trivial = the object has a curved or degenerate segment."
 )
 BUDGET = {"quick": 2200, "thorough": 90000}
-TIME_CAP = {"quick": 80, "thorough": 1500}
+TIME_CAP = {"quick": 240, "thorough": 1500}
 MIN_PER_SHARD = 40
 ANCHORS = ["PathSegment.segment_length", "Linear.length", "QuadraticBezier.length", "CubicBezier.length", "Arc.length", "Shape._calc_lengths",
            "Shape.length", "Shape.point", "_RoundShape.point"]
